@@ -13,7 +13,9 @@ def sh(cmd, cwd, env=None, timeout=900):
 def main():
     prop, k = sys.argv[1], sys.argv[2]
     needs = sys.argv[3] if len(sys.argv) > 3 else ""
-    wt = f"/tmp/mut/wt_{prop}"; out = f"/tmp/mut/out_{prop}"
+    base = os.environ.get("VK_MUT_BASE", "/tmp/mut")       # round 2: /tmp/mut2 (worktrees at the repaired HEAD)
+    tag = os.environ.get("VK_MUT_TAG", "m")                # round 2: r2m
+    wt = f"{base}/wt_{prop}"; out = f"{base}/out_{prop}"
     diff = f"{out}/m{k}.diff"; demo = f"{out}/demo_m{k}.py"
     env = {"PYTHONPATH": f"{wt}/src"}
     ran = []
@@ -33,13 +35,19 @@ def main():
     ok = rc_s == 0 and rc_d != 0 and rc_c == 0
     print(json.dumps(ran, indent=1)); print("CONFIRMED" if ok else "REJECTED")
     if ok:
-        d = f"/verif/seeded/{prop}_m{k}"; os.makedirs(d, exist_ok=True)
+        d = f"/verif/seeded/{prop}_{tag}{k}"; os.makedirs(d, exist_ok=True)
         shutil.copy(diff, f"{d}/patch.diff"); shutil.copy(demo, f"{d}/demo.py")
         notes = open(f"{out}/notes.md").read() if os.path.exists(f"{out}/notes.md") else ""
-        meta = {"property": prop, "id": f"{prop}_m{k}", "needs_to_manifest": needs, "origin": "independent sub-agent given only the property text",
+        meta = {"property": prop, "id": f"{prop}_{tag}{k}", "needs_to_manifest": needs, "origin": "independent sub-agent given only the property text",
                 "verified_by_me": {"commands": [f"git apply patch.diff (scratch worktree of /repo HEAD)", "PYTHONPATH=<wt>/src /venv/bin/python -m pytest -q -p no:cacheprovider --timeout=900 -x", democmd.replace(out, "<seeded dir>")],
                                    "results": ran, "date": time.strftime("%Y-%m-%d")},
                 "files_touched": [l[6:] for l in open(diff) if l.startswith("+++ b/")]}
+        import re
+        m = re.search(r"(?s)(#+[^\n]*\bm%s\b.*?)(?=\n#+[^\n]*\bm(?!%s\b)\d|\Z)" % (k, k), notes)
+        sec = m.group(1) if m else ""
+        open(f"{d}/agent_notes.md", "w").write(sec.strip() + "\n")
+        n = re.search(r"(?is)(needs?[^\n]*\n(?:[^\n]+\n){0,6})", sec)
+        meta["needs_to_manifest"] = needs or (re.sub(r"\s+", " ", n.group(1)).strip()[:600] if n else re.sub(r"\s+", " ", sec)[:400])
         json.dump(meta, open(f"{d}/meta.json", "w"), indent=1)
     return 0 if ok else 1
 sys.exit(main())
